@@ -58,7 +58,7 @@ def run(tier, seed):
         nsteps = rng.randint(10, 40) if integ == "exp" else rng.randint(30, 60)
         kw = dict(dt=dt, max_steps=nsteps, electronic_integration=integ, seed_sequence=rng.randrange(2 ** 31))
         if diab:
-            kw["zeta_list"] = [2.0] * (nsteps + 5)     # no hops: the rescaling direction (derivative coupling) is the zero vector in the diabatic representation
+            kw["zeta_list"] = [1.0e9] * (nsteps + 5)     # no hops (a coherent start with a small active population can give g > 2): the rescaling direction (derivative coupling) is the zero vector in the diabatic representation
             if cls is mudslide.TrajectoryCum: cls = mudslide.TrajectorySH
         if cls is mudslide.AugmentedFSSH:
             kw["augmented_integration"] = "exp" if integ == "exp" else "rk4"   # the default (= electronic_integration) is not accepted for linear-rk4
@@ -86,7 +86,12 @@ def run(tier, seed):
             if not np.array_equal(b, tr.rho):
                 bad.append(dict(failed="hop attempts do not alter the density matrix", case=info))
         tr.hop_to_it = hop
-        log = tr.simulate()
+        try:
+            log = tr.simulate()
+        except np.linalg.LinAlgError as ex:
+            # a hop attempted along a zero rescaling vector (A-FSSH before any moment has built up, or a vanishing coupling):
+            # NaN velocities - outside the quantifier of every property here (DESIGN 4, observations); skip the run
+            res.count("skipped/zero-rescale-vector"); res.extra.setdefault("skipped_runs", []).append(dict(info, reason=str(ex))); continue
         # the statement on every logged density matrix
         collapsed = bool(getattr(log, "events", {}).get("collapse"))
         for s in log:
@@ -114,11 +119,19 @@ def run(tier, seed):
     # an A-FSSH collapse (also one landing in the same step as an accepted hop) replaces rho by the pure active state
     import p11
     p11.collapse_probe(res, rng, tier, bad)
+    # ---- whole loop-body passes with the linear-rk4 integrator replayed through Model/Traj.step_rk4
+    import ptraj
+    tc, tmeta = ptraj.collect(res, rng, 7 if tier == "quick" else 100, 30 if tier == "quick" else 800, kind="sh", integ="rk4")
+    f4, e4 = run_case_check("C02traj", ptraj.PRELUDE_T, "caseT", "chkTr", tc, per_file=4, timeout=1500)
+    for e in e4:
+        res.violation("model evaluation failed (coqc)", dict(kind="coqc-error", log=e, no_failing_input_found=True))
+    res.traces_validated = len(tc) - len(f4)
+    rk4_corr = [dict(tmeta[i], what="full pass, linear-rk4") for i in f4[:4]]
     failing, errors = run_case_check("C02", PRELUDE, "case02", "chk02", cases, per_file=6, timeout=1500)
     for e in errors:
         res.violation("model evaluation failed (coqc)", dict(kind="coqc-error", log=e, no_failing_input_found=True))
-    res.traces_validated = len(cases) - len(failing)
-    corr = [meta[i] for i in failing[:4]]
+    res.traces_validated += len(cases) - len(failing)
+    corr = [meta[i] for i in failing[:4]] + rk4_corr
     if bad:
         res.violation("implementation violates: " + bad[0]["failed"], dict(kind="oracle", failing_inputs=bad[:4], correspondence_failures=corr))
     elif corr:
@@ -126,7 +139,7 @@ def run(tier, seed):
                       dict(kind="correspondence", correspondence="Run/R02.chk02: Wmid/exp_step/rk4_step vs hamiltonian_propagator/propagate_electronics", failing_inputs=corr, no_failing_input_found=True))
     return finish(res, thm,
                   rule="runs of TrajectorySH / Ehrenfest / TrajectoryCum / AugmentedFSSH on the 10 registered models (2, 3, 8 states; 1-D and 5-D), both integrators, initial state index / pure coherent / mixed density matrix; "
-                       "every logged density matrix checked (Hermitian, trace, populations, purity, min eigenvalue); sampled steps replayed through Wmid + exp_step / rk4_step with numpy's eigh output as oracle input "
+                       "whole loop-body passes of linear-rk4 runs replayed through Model/Traj.step_rk4; every logged density matrix checked (Hermitian, trace, populations, purity, min eigenvalue); sampled steps replayed through Wmid + exp_step / rk4_step with numpy's eigh output as oracle input "
                        "(oracle residuals checked); non-trivial = distinct replayed step",
                   assumptions=["np.linalg.eigh called by the harness on the same matrix returns what the implementation got (deterministic LAPACK)",
                                "tolerances: W 2^-44 relative, rho 2^-38 (exp) / 2^-34 (rk4) absolute"])
